@@ -11,10 +11,11 @@ git -C /repo worktree add --detach $W HEAD -q || exit 2
 if ! git -C $W apply seeded/$NAME/patch.diff 2>/dev/null; then
   if ! (cd $W && patch -p1 -F3 -s < /verif/seeded/$NAME/patch.diff >/dev/null 2>&1); then echo "$NAME patch-does-not-apply"; git -C /repo worktree remove --force $W; exit 3; fi
 fi
-rm -rf /var/tmp/evidence.keep.$NAME; cp -r evidence /var/tmp/evidence.keep.$NAME
+rm -rf /var/tmp/evidence.keep.$NAME; mkdir -p /var/tmp/evidence.keep.$NAME
+for id in $IDS; do cp evidence/$id.json /var/tmp/evidence.keep.$NAME/ 2>/dev/null; done   # only the files these runs rewrite
 for id in $IDS; do
   s=$(date +%s); out=$(SA_REPO=$W timeout 3000 ./check $id quick 2>&1); rc=$?
   echo "$NAME $id rc=$rc $(( $(date +%s) - s ))s $(echo "$out" | grep -E 'VIOLATION' | head -1 | cut -c1-120)"
 done
-rm -rf evidence; mv /var/tmp/evidence.keep.$NAME evidence
+for id in $IDS; do cp /var/tmp/evidence.keep.$NAME/$id.json evidence/$id.json 2>/dev/null; done; rm -rf /var/tmp/evidence.keep.$NAME
 git -C /repo worktree remove --force $W
